@@ -499,6 +499,15 @@ class SpecEval:
         x = self.eval(args[0])
         return V(eq(x.term, self.nil_of(x).term), 'Bool', 'bool')
 
+    def b_goeq(self, args):
+        """Go's == on interface values (same dynamic type and equal payload; floats by IEEE equality)"""
+        from .exec import Exec
+        a, b = self.eval(args[0]), self.eval(args[1])
+        a, b = self.coerce_pair(a, b)
+        if a.sort != 'Any' or b.sort != 'Any':
+            self.err('goeq expects interface values')
+        return V(Exec.any_eq(None, a.term, b.term), 'Bool', 'bool')
+
     def b_wrap64(self, args):
         x = self.eval(args[0])
         return V('(wrap64 %s)' % x.term, 'Int', 'int64')
